@@ -9,15 +9,29 @@
 (*    pl / pr pad bytes of padding, every oracle maps through i -> pl + s*i.    *)
 EXTENDS Bytes, TLC, Json
 CONSTANTS Alpha, MinN, MaxN, MaxH, Scales, CheckLift, Emit,
-          Hole      \* FALSE: haystacks over Alpha; TRUE: one position of the haystack is replaced by HoleSym
+          Hole,     \* FALSE: haystacks over Alpha; TRUE: one position of the haystack is replaced by HoleSym
+          NearMiss  \* TRUE: the near-miss family below instead of all (needle, haystack) pairs
 HoleSym == 2
 Pads == {<<0, 0>>, <<2, 1>>, <<0, 3>>}
 VARIABLES n, h, done
 \* the invariants are evaluated on the successor state (done = TRUE) so that TLC's workers share the load
-Init == /\ n \in Seqs(Alpha, MinN, MaxN)
-        /\ \E hb \in Seqs(Alpha, 0, MaxH) :
-             IF ~Hole THEN h = hb
-             ELSE \E p \in 1..Len(hb) : h = [hb EXCEPT ![p] = HoleSym]
+\* Near-miss family (remembered-prefix / prefilter interplay of Two-Way): periodic needles u^k u[..r] of length
+\* MinN..MaxN; haystack = (needle with one byte changed, first d bytes dropped) ++ gap ++ (needle with one byte
+\* changed) ++ optional real occurrence.  MaxH is not used by this family.
+RECURSIVE Rep(_, _)
+Rep(u, len) == IF len <= Len(u) THEN SubSeq(u, 1, len) ELSE u \o Rep(u, len - Len(u))
+NearMissInit ==
+  \E u \in Seqs(Alpha, 2, 4) : \E L \in MinN..MaxN :
+    /\ L > Len(u)
+    /\ n = Rep(u, L)
+    /\ \E i \in 1..L : \E x \in Alpha : \E d \in {0, 1, L \div 2} : \E g \in 0..2 : \E j \in 1..L : \E y \in Alpha : \E t \in BOOLEAN :
+         /\ x # n[i] /\ y # n[j]
+         /\ h = SubSeq([n EXCEPT ![i] = x], d + 1, L) \o [k \in 1..g |-> x] \o [n EXCEPT ![j] = y] \o (IF t THEN n ELSE <<>>)
+Init == /\ IF NearMiss THEN NearMissInit
+           ELSE /\ n \in Seqs(Alpha, MinN, MaxN)
+                /\ \E hb \in Seqs(Alpha, 0, MaxH) :
+                     IF ~Hole THEN h = hb
+                     ELSE \E p \in 1..Len(hb) : h = [hb EXCEPT ![p] = HoleSym]
         /\ done = FALSE
 Next == ~done /\ done' = TRUE /\ UNCHANGED <<n, h>>
 Pad == 99                                     \* a symbol outside Alpha
